@@ -1260,6 +1260,9 @@ func (d *dealer) syncRemoveSession(sess *wamp.Session) []*wamp.Publish {
 		if errArgs == nil {
 			errArgs = wamp.List{"callee gone"}
 		}
+		// A kill-mode cancel may be waiting for this callee's answer, which
+		// will never come now; let the cancel below finish the call.
+		invk.canceled = false
 		// Use CancelModeSkip so as not to send an INTERRUPT to a callee that
 		// is no longer there.
 		d.syncCancel(caller, &wamp.Cancel{Request: invk.callID.request},
